@@ -435,6 +435,20 @@ fn main() {
     run.bound("far_pool_depth_core_alphabet", 2);
     let r3 = bfs(&run, &m2, "BFS far-scale operands", &core2, 2);
     run.extra("level_sizes_far_scale", json!(r3.iter().map(|x| x.0).collect::<Vec<_>>()));
+    // deep, narrow programs: few actions, many steps - squaring doubles the scale at every step, so a short
+    // alphabet reaches scale gaps of tens of thousands only through a HISTORY (1e-5 squared twelve times is
+    // 1e-20480), which no single operand of the other searches carries; nothing is pruned below 45000 digits
+    let deep_pool: Vec<Dec> = vec![Dec::new(1, 5), Dec { n: big("12345677654321"), s: 7 }, Dec::new(-3, 0)];
+    let mut m3 = M::new(deep_pool, 45_000);
+    m3.max_scale = 90_000;
+    let deep_names = ["square", "V+V 12345677654321e-7", "R-R -3e0"];
+    let deep: Vec<Act> = m3.all_actions().into_iter().filter(|a| deep_names.contains(&m3.describe(a).as_str())).collect();
+    assert_eq!(deep.len(), deep_names.len(), "deep alphabet names must match");
+    let deep_depth: usize = tier.pick(10, 13);
+    run.bound("deep_alphabet", json!(deep_names));
+    run.bound("deep_depth", deep_depth);
+    let r4 = bfs(&run, &m3, "BFS deep narrow alphabet", &deep, deep_depth);
+    run.extra("level_sizes_deep_narrow", json!(r4.iter().map(|x| x.0).collect::<Vec<_>>()));
     // determinism: re-explore the full-alphabet graph to one level less and compare level sizes and digests
     let r1b = bfs(&run, &m, "BFS full alphabet (determinism re-run)", &full, depth_full.saturating_sub(1).max(1));
     // (the last level of a run is checked but not stored, so it is excluded from the comparison)
